@@ -211,9 +211,12 @@ def wash_method(ctx) -> None:
     apps = [cs for cs in fv.calls() if isinstance(cs.call.func, ast.Attribute) and cs.call.func.attr == "append" and is_name(cs.call.func.value, selfn)]
     diti_ok = False
     scheme_ok = False
+    arms = []
     for cs in apps:
-        arg = cs.call.args[0]
-        facts = fv.rfacts_at(cs.node)
+        for tmpl, at in (fv.template_arms(cs.call.args[0], cs.node) or []):
+            arms.append((tmpl, at))
+    for arg, at in arms:
+        facts = fv.rfacts_at(at)
         diti = None
         for r, pol, raw in facts:
             if attr_of_name(r, selfn, "diti_mode"):
@@ -223,13 +226,11 @@ def wash_method(ctx) -> None:
         elif diti is False:
             # W{scheme}; guarded by membership in {1,2,3,4}
             member = False
-            for r, pol, raw in facts:
+            for r, pol in [(x[0], x[1]) for x in fv.atoms_at(at)]:
                 core, p = r, pol
-                while isinstance(core, ast.UnaryOp) and isinstance(core.op, ast.Not):
-                    core, p = core.operand, not p
                 if isinstance(core, ast.Compare) and len(core.ops) == 1 and is_name(core.left, "scheme") and isinstance(core.comparators[0], (ast.Set, ast.Tuple, ast.List)):
                     vals = {e.value for e in core.comparators[0].elts if isinstance(e, ast.Constant)}
-                    if vals == {1, 2, 3, 4} and (isinstance(core.ops[0], ast.In) == p):
+                    if vals == {1, 2, 3, 4} and isinstance(core.ops[0], ast.In) and p:
                         member = True
             from ..engine import template_parts, Hole
 
